@@ -267,6 +267,44 @@ func runLeaseScenario(sc leaseScenario) (*leaseSys, bool) {
 		holder.locker.Unlock()
 		s.log(map[string]any{"e": "unlocked", "p": 1})
 		observe(s.now()+2*ttl, false)
+	case "handoff":
+		// a waiter blocks in LockWithCtx for most of a lease period, the holder unlocks, the waiter acquires and
+		// holds: the new holder's lease must be in order although it waited long for the lock
+		ctx, cancel := context.WithTimeout(context.Background(), time.Duration(8*ttl)*time.Microsecond+5*time.Second)
+		done := make(chan struct{})
+		go func() {
+			defer close(done)
+			if err := waiter.locker.LockWithCtx(ctx); err != nil {
+				s.log(map[string]any{"e": "wfail", "p": 3})
+				return
+			}
+			s.log(map[string]any{"e": "wacq", "p": 3})
+			s.log(map[string]any{"e": "acq", "p": 3})
+		}()
+		observe(t0+int64(4+sc.Phase)*ttl/8, false) // the holder keeps the lock for 0.5 .. 1.4 lease periods
+		s.log(map[string]any{"e": "rel", "p": 1})
+		holder.locker.Unlock()
+		s.log(map[string]any{"e": "unlocked", "p": 1})
+		select {
+		case <-done:
+		case <-time.After(3 * time.Second):
+		}
+		observe(s.now()+2*ttl, true) // contender polls while the new holder holds
+		cancel()
+		<-done
+		s.mu.Lock()
+		acquired := false
+		for _, e := range s.events {
+			if e["e"] == "wacq" {
+				acquired = true
+			}
+		}
+		s.mu.Unlock()
+		if acquired {
+			s.log(map[string]any{"e": "rel", "p": 3})
+			waiter.locker.Unlock()
+			s.log(map[string]any{"e": "unlocked", "p": 3})
+		}
 	case "death":
 		// a waiter blocks in LockWithCtx before the holder dies
 		ctx, cancel := context.WithTimeout(context.Background(), time.Duration(8*ttl)*time.Microsecond+5*time.Second)
@@ -329,6 +367,12 @@ func driveLease(opt *Options) error {
 	switch opt.Extra["mode"] {
 	case "replylost": // the recorded finding: a renewal whose reply is lost
 		scs = append(scs, leaseScenario{Kind: "hold", TTL: 200 * time.Millisecond, Periods: 4, FaultAt: 2, Fault: "replylost"})
+	case "handoff": // C01 under real leases: a caller that waited long acquires and holds
+		for _, ttl := range ttls {
+			for ph := 0; ph < 8; ph += 2 {
+				scs = append(scs, leaseScenario{Kind: "handoff", TTL: ttl, Phase: ph})
+			}
+		}
 	default:
 		for _, ttl := range ttls {
 			scs = append(scs, leaseScenario{Kind: "hold", TTL: ttl, Periods: 6 + rnd.Intn(6)})
@@ -340,6 +384,9 @@ func driveLease(opt *Options) error {
 			for ph := 0; ph < 8; ph++ {
 				scs = append(scs, leaseScenario{Kind: "death", TTL: ttl, Periods: 2 + rnd.Intn(3), Phase: ph})
 				scs = append(scs, leaseScenario{Kind: "unlockrace", TTL: ttl, Periods: 1 + rnd.Intn(3), Phase: ph})
+			}
+			for ph := 1; ph < 8; ph += 3 {
+				scs = append(scs, leaseScenario{Kind: "handoff", TTL: ttl, Phase: ph})
 			}
 		}
 	}
@@ -353,7 +400,7 @@ func driveLease(opt *Options) error {
 	var wmu sync.Mutex
 	stats := map[string]int{}
 	// solo phase: the lock is the only user of the timer package besides one distant timer
-	if opt.Extra["mode"] != "replylost" {
+	if opt.Extra["mode"] == "" {
 		for _, ttl := range ttls[:1] {
 			sc := leaseScenario{Kind: "hold", TTL: ttl, Periods: 3, Distant: true}
 			for attempt := 0; attempt < 3; attempt++ {
